@@ -139,6 +139,12 @@ def gen_cases(ctx, corpus, quick):
     for n in (1000, 100000 if quick else 150000):   # building n siblings is quadratic in time (sibling-list walk): time is not part of the property
         for g, i in ((0, 0), (1, 2)):
             cases.append((cc.w2x_line(cc.wide_wml(n), gen=g, indent=i), "wide"))
+    # embedded documents: chains (each embedded parse has its own nesting limit) and documents multiplied through the
+    # string table at every embedding level (found by the parser development; bounded since WBXML_MAX_EMBEDDED_DEPTH)
+    for k in (1, 2, 3, 60, 4000, 12000):
+        cases.append((cc.w2x_line(cc.embedded_chain(k), gen=rng.below(3), indent=1), "embedded"))
+    for lv, k in ((2, 8), (4, 8), (7, 8), (12, 8), (30, 4)):
+        cases.append((cc.w2x_line(cc.embedded_bomb(lv, k), gen=0), "embedded"))
     for k, m in ((300, 300), (2000, 2000) if quick else (6000, 6000)):
         cases.append((cc.w2x_line(cc.strtbl_blowup(k, m), gen=0), "strtbl-blowup"))
         cases.append((cc.w2x_line(cc.strtbl_blowup(k, m)[:-2], gen=0), "strtbl-blowup"))
@@ -172,7 +178,7 @@ def run(ctx):
         cases = pre + gen_cases(ctx, corpus, quick)
     lines = [c[0] for c in cases]
     # hang-prone / heavy cases run in their own processes with a short time limit
-    heavy = [i for i, c in enumerate(cases) if c[1] in ("deep", "indent-product", "wide", "strtbl-blowup", "replay", "kept")]
+    heavy = [i for i, c in enumerate(cases) if c[1] in ("deep", "indent-product", "wide", "strtbl-blowup", "embedded", "replay", "kept")]
     light = [i for i in range(len(cases)) if i not in set(heavy)]
     answers = [None] * len(cases)
     la, lcr = common.run_lines(harness, [lines[i] for i in light], timeout=(900 if quick else 3000))
